@@ -21,7 +21,8 @@ EXPLANATION = (
     'transitions of the awaiting mask, and every query send is followed by marking the service awaited; '
     '(GRD.4) the per-service reference count moves only by ++/--, every awaited mark takes a reference and '
     'every clear gives one back, so a service owing a verdict is never freed; (GRD.3) hard-hold transition signatures; (MPT.3) a NO reply reaches the kill on all paths.  Counter '
-    'values over histories are not decided.')
+    'values over histories are not decided.'
+    ' Rounds 8-9: (WIRE.2) the start-up callback that computes the required data is scheduled to run before the first poll; (WIRE.3) the per-client module record is created at the announcement; (MPT.3) every documented form of a refusal (NO, with or without message or blank) reaches the rejecting verdict - decided on what each path learned about the text.')
 ASSUMPTIONS = ['clang 14 CFG; uninterpreted boolean atoms; stores to an atom\'s operands reset it',
                'request records are zero-allocated (set_node_alloc -> xmalloc -> calloc)']
 
